@@ -179,6 +179,19 @@ def _kcoreness(prog, rep):
         if not ok:
             continue
         k = norm(lp[0].target)
+        # the loop may be left early only once a core is empty (then all higher cores are empty as well)
+        exits = [x for x in ast.walk(lp[0]) if isinstance(x, (ast.Break, ast.Return)) or (isinstance(x, ast.Continue) and pm.loops(x) and pm.loops(x)[0] is lp[0])]
+        bad = []
+        for x in exits:
+            gs = [(t, pol) for t, pol, knd, owner in pm.guards(x) if any(owner is y for y in ast.walk(lp[0]))]
+            okx = isinstance(x, ast.Break) and len(gs) >= 1 and any(pol and (m.match(t, 'kn[%s] == 0' % k) or m.match(t, 'not kn[%s]' % k)
+                                                                              or m.match(t, 'not np.any($S)') or m.match(t, 'np.sum($S) == 0')) for t, pol in gs)
+            if not okx:
+                bad.append(x)
+        rep.ob('K.no-core-level-skipped', f, bad[0] if bad else 'for %s in range(N)' % k, not bad,
+               'every k must be examined until a core is empty: a %s at line %s leaves levels unexamined although their cores may be non-empty '
+               '(for in+out degrees a k-core can have as few as k/2 + 1 nodes), so coreness and core sizes come out too small' % (
+                   type(bad[0]).__name__.lower() if bad else '', bad[0].lineno if bad else 0), line=lp[0].lineno)
         body = lp[0].body
         call = [s for s in body if isinstance(s, ast.Assign) and isinstance(s.value, ast.Call) and prog.resolve_expr(f, s.value.func)[0] == 'func']
         okc = False
@@ -240,6 +253,9 @@ def variants(root):
     B('directed core peeled on in-degree', 'kcore_bd', 'id, od, deg = degrees_dir(CIJkcore)', 'deg, od, _ = degrees_dir(CIJkcore)', '')
     B('level recorded before increment', 'kcore_bu', '        iter += 1\n', '', 'O.', also=[(C, "            peellevel.append(iter * np.ones((len(ff),)))\n", "            peellevel.append(iter * np.ones((len(ff),)))\n        iter += 1\n", 2)]) if False else None
     B('coreness only raised for larger cores', 'kcoreness_centrality_bu', '        coreness[ss] = k\n', '        if kn[k] > 1:\n            coreness[ss] = k\n', 'K.coreness', file=E)
+    for fn in ('kcoreness_centrality_bd', 'kcoreness_centrality_bu'):
+        B('early exit on a small core', fn, '        coreness[ss] = k\n', '        coreness[ss] = k\n        if kn[k] <= k + 1:\n            break\n', 'K.no-core-level', file=E)
+        N('early exit on an empty core', fn, '        coreness[ss] = k\n', '        coreness[ss] = k\n        if kn[k] == 0:\n            break\n', file=E)
     B('k descends', 'kcoreness_centrality_bd', 'for k in range(N):', 'for k in range(N - 1, -1, -1):', 'K.k-ascends', file=E)
     B('membership from in-degree only', 'kcoreness_centrality_bd', 'ss = (np.sum(CIJkcore, axis=0) + np.sum(CIJkcore, axis=1)) > 0', 'ss = np.sum(CIJkcore, axis=0) > 0', 'K.membership', file=E)
     B('sizes from another k', 'kcoreness_centrality_bu', 'CIJkcore, kn[k] = kcore_bu(CIJ, k)', 'CIJkcore, kn[k] = kcore_bu(CIJ, k + 1)', 'K.core-and-size', file=E)
